@@ -349,3 +349,100 @@ PROPS["C18"] = {
     "bounds": {"quick": "as C17", "thorough": "as C17"},
     "outside": "weighted_sum/now is kept as an opaque quotient: numerator and denominator are compared separately",
 }
+
+
+def _jobs_c14(tier):
+    q = tier == "quick"
+    J = []
+
+    def add(name, budget, **kw):
+        kw["props"] = ("C14",)
+        J.append({"name": "M2/fleet/" + name, "spec": ("vfy.m2x", "fleet", kw), "budget_s": budget, "bounds": str(kw), "validate_every": 25})
+    add("cap2-2loads", 20 if q else 60, cap=2, n_loads=2)
+    add("cap1-2loads", 25 if q else 60, cap=1, n_loads=2)
+    add("cap3-3loads-gap-delay", 20 if q else 120, cap=3, n_loads=3, sym=("gap", "delay"))
+    add("cap2-3loads-slow", 20 if q else 240, cap=2, n_loads=3, sym=("gap", "transit"), consumer="slow")
+    add("cap2-zero-delay", 15 if q else 240, cap=2, n_loads=2, zero=True)
+    if not q:
+        add("cap2-3loads-all", 400, cap=2, n_loads=3)
+        add("cap3-4loads", 300, cap=3, n_loads=4, sym=("gap", "delay"))
+    return J
+
+
+PROPS["C14"] = {
+    "explanation": "Bounded symbolic simulation of the real Fleet edge / FleetStore driven by a harness loader and unloader process: load gaps, the waiting delay and the transit delay "
+                   "are z3 reals (zero included), so loads during a trip, in the instant of departure and every phase of the periodic timer are covered. From the instants at which items "
+                   "first appear in ready_items: every item is delivered no earlier than one round trip and no later than delay + one round trip after loading; for every delivery instant R the "
+                   "items loaded before R-2*transit and not yet delivered are in that batch, items loaded after it are not; hand-over in loading order; a full fleet departs at once.",
+    "jobs": _jobs_c14,
+    "required_witnesses": ["C14:item-checked", "C14:capacity-departure-checked"],
+    "nontrivial_witnesses": ["complete"],
+    "twin": lambda tier: ("vfy.m2x", "fleet", dict(props=("C14",), cap=2, n_loads=1, sym=("gap",), twin=True)),
+    "bounds": {"quick": "capacity 1-3, 2-3 loads, 2-3 of {gaps, delay, transit} symbolic, eager and slow consumer, delay in [1,4] or [0,4]",
+               "thorough": "up to 4 loads, all of gaps/delay/transit symbolic"},
+    "outside": "more than 4 loads; fleets inside larger factories are covered by the C03/C20 scenarios",
+}
+
+
+def conveyor_cfgs(tier):
+    q = tier == "quick"
+    n = 3 if q else 4
+    C = {}
+    for kind in ("cconv", "sconv"):
+        for acc in (1, 0):
+            C[f"{kind}-acc{acc}-eager"] = dict(kind=kind, acc=acc, cap=3, n_items=n, consumer="eager")
+            C[f"{kind}-acc{acc}-slow"] = dict(kind=kind, acc=acc, cap=3, n_items=3, consumer="slow")
+            C[f"{kind}-acc{acc}-late"] = dict(kind=kind, acc=acc, cap=3, n_items=3, consumer="late")
+    C["sconv-acc1-cap2-hold"] = dict(kind="sconv", acc=1, cap=2, n_items=3, consumer="hold")
+    C["cconv-acc1-cap2-hold"] = dict(kind="cconv", acc=1, cap=2, n_items=3, consumer="hold")
+    C["cconv-acc1-cap2-slow"] = dict(kind="cconv", acc=1, cap=2, n_items=3, consumer="slow")
+    C["cconv-acc1-speed2"] = dict(kind="cconv", acc=1, cap=2, n_items=3, consumer="late", speed=2, item_len=1, length=2)
+    C["cconv-acc0-halfitems"] = dict(kind="cconv", acc=0, cap=4, n_items=3, consumer="late", speed=1, item_len=0.5, length=2)
+    C["cconv-acc1-nonmultiple"] = dict(kind="cconv", acc=1, cap=2, n_items=2, consumer="eager", speed=1, item_len=1, length=2.5)
+    C["sconv-acc1-slot05"] = dict(kind="sconv", acc=1, cap=2, n_items=3, consumer="late", slot=0.5)
+    if not q:
+        C["cconv-acc1-cap4-slow4"] = dict(kind="cconv", acc=1, cap=4, n_items=4, consumer="slow")
+        C["cconv-acc0-cap4-slow4"] = dict(kind="cconv", acc=0, cap=4, n_items=4, consumer="slow")
+        C["sconv-acc1-cap4-slow4"] = dict(kind="sconv", acc=1, cap=4, n_items=4, consumer="slow")
+    return C
+
+
+def conveyor_jobs(pid, tier, only=None):
+    jobs = []
+    for name, cfg in conveyor_cfgs(tier).items():
+        if only and not only(name):
+            continue
+        kw = dict(cfg)
+        kw["props"] = (pid,)
+        jobs.append({"name": "M2/conveyor/" + name, "spec": ("vfy.m2x", "conveyor", kw), "budget_s": 20 if tier == "quick" else 200, "bounds": str(cfg),
+                     "validate_every": 25})
+    return jobs
+
+
+CONV_EXPL = ("Bounded symbolic simulation of the real ConveyorBelt edges (slotted and continuous, both accumulation flags) with their BeltStores, driven by a harness producer "
+             "(reserve_put / put with symbolic arrival gaps, zero included) and a harness consumer (eager, late, or busy for symbolic service times after each item, which produces short, "
+             "long and repeated stalls, also while items are entering). Entry, first-offered (first instant in ready_items) and removal instants E_i, R_i, G_i are terms over the symbolic gaps; ")
+
+PROPS["C12"] = {
+    "explanation": CONV_EXPL + "oracles: removal order = entry order; ledger occupancy <= capacity after every event; E_{i+1}-E_i >= item length / speed (slot delay); R_i-E_i >= belt length / speed "
+                   "(capacity*delay); with an eager consumer R_i-E_i equals it and G_i = R_i.",
+    "jobs": lambda tier: conveyor_jobs("C12", tier),
+    "required_witnesses": ["C12:travel-checked"],
+    "nontrivial_witnesses": ["complete"],
+    "twin": lambda tier: ("vfy.m2x", "conveyor", dict(props=("C12",), kind="cconv", n_items=1, twin=True)),
+    "bounds": {"quick": "17 (belt kind, accumulation, geometry, consumer) configurations, capacity 2-4, 3 items, speeds 1 and 2, item length 1 and 0.5, one non-multiple belt length",
+               "thorough": "20 configurations, 4 items"},
+    "outside": "belt speed / length / item length are concrete per configuration (products with symbolic geometry would be non-linear); tolerance 2e-5 where the code uses 1e-5",
+}
+
+PROPS["C13"] = {
+    "explanation": CONV_EXPL + "oracles: a stall is an interval in which the head item is at the exit and not taken. Non-accumulating: no entry strictly inside a stall, and R_i = E_i + travel + "
+                   "(stall time inside [E_i, R_i]) (nothing advances while stopped, everything resumes from where it stopped). Accumulating: R_i = max(E_i + travel, G_{i-1} + item length / speed) "
+                   "(advance until touching the item ahead, one item length after it leaves), every item is eventually admitted, order preserved.",
+    "jobs": lambda tier: conveyor_jobs("C13", tier, only=lambda n: "eager" not in n and "hold" not in n),
+    "required_witnesses": ["C13:stall-seen", "C13:ready-time-checked"],
+    "nontrivial_witnesses": ["complete"],
+    "twin": lambda tier: ("vfy.m2x", "conveyor", dict(props=("C13",), kind="cconv", n_items=1, consumer="late", twin=True)),
+    "bounds": {"quick": "as C12 (configurations with a slow or late consumer)", "thorough": "as C12"},
+    "outside": "as C12",
+}
